@@ -3173,6 +3173,10 @@ func matchSelectorMethod(sc *scope, n *node) (err error) {
 	}
 
 	if m, lind := n.typ.lookupMethod(name); m != nil {
+		if n.typ.methodCount(name, len(lind)) > 1 {
+			// The method is not the only one at the shallowest depth.
+			return n.cfgErrorf("ambiguous selector: %s", name)
+		}
 		n.action = aGetMethod
 		if n.child[0].isType(sc) {
 			// Handle method as a function with receiver in 1st argument.
